@@ -15,8 +15,9 @@ from .tyinf import FuncEnv
 
 
 class Taint:
-    def __init__(self, ctx, sources, region=None, label="T"):
+    def __init__(self, ctx, sources, region=None, label="T", interproc_pc=True):
         """sources: iterable of locations initially tainted"""
+        self.interproc_pc = interproc_pc
         self.ctx = ctx
         self.db = ctx.db
         self.cg = ctx.cg
@@ -237,7 +238,7 @@ class FuncTaint:
         if s is None:
             return argsrc + recv
         for g in s.callees:
-            if pc:
+            if pc and T.interproc_pc:
                 T.add(("pc", g.qual), ("called under tainted control in %s" % self.q.split(".")[-1], pc[0]))
             pos = list(g.posparams)
             if g.is_method or (s.kind == "ctor" and g.name == "__init__"):
